@@ -367,7 +367,10 @@ def cmd_check(args):
     if pid != "DEV":
         hs = registry.select(pid, tier)
     else:
-        hs = [h for h in registry.HARNESSES if args.only or tier == "thorough" or "quick" in h["props"].values()]
+        if os.environ.get("VERIF_DEV_TIER") == "disabled":
+            hs = [h for h in registry.HARNESSES if "disabled" in h["props"].values()]
+        else:
+            hs = [h for h in registry.HARNESSES if args.only or tier == "thorough" or "quick" in h["props"].values()]
     if args.only:
         hs = [h for h in hs if any(o in h["name"] for o in args.only)]
     if not hs:
